@@ -7,8 +7,8 @@ import ops
 import numpy as np
 
 ID = 'C05'
-N_QUICK = 500
-N_THOROUGH = 5000
+N_QUICK = 660
+N_THOROUGH = 6600
 
 # ---------------------------------------------------------------- monitor: every DimArray the library constructs
 _MON = {'on': False, 'bad': []}
@@ -521,14 +521,56 @@ class AxisCache:
     @staticmethod
     def nontrivial(c, res): return sum(1 for o in c['prog'] if o[0] == 'query') >= 1 and len(c['prog']) >= 3
 
+# =============================================================== suite 3: the variables of a Dataset
+class DatasetVars:
+    """'... and every variable of a Dataset': the Dataset histories of C13 (construction, assignment, rejected assignment, deletion, renaming of
+    axes from the dataset and from a variable, ds.dims = ..., set_axis / axis replacement by name AND by position, key renaming), every variable
+    tested for well-formedness after every step; the same heap model decides the expected state."""
+    HEADER = ('From DA Require Import Prelude NDArray Array PyRT.\n'
+              'From DA.Model Require Import Value Reshape Indexing Align Dataset.\nOpen Scope string_scope.\n')
+    RUNNER = 'hist_case_ok'
+    SHOW = 'hist_case_show'
+
+    @staticmethod
+    def generate(rng, n, tier, stats):
+        import props.c13 as c13
+        return c13.generate(rng, min(n, 60 if tier == 'quick' else 400), tier, stats)
+
+    @staticmethod
+    def execute(c):
+        import props.c13 as c13
+        return c13.execute(c)
+
+    @staticmethod
+    def coq_case(c, res):
+        import props.c13 as c13
+        return c13.coq_case(c, res)
+
+    @staticmethod
+    def oracle(c, res):
+        for k, (st, r) in enumerate(zip(c['hist'], res[1])):
+            for v in r['obs']['vars']:
+                a = v['arr']; names = [ax['name'] for ax in a['axes']]
+                where = 'after step %d (%s): Dataset variable %r' % (k, st['op'][0], v['key'])
+                if len(a['axes']) != len(a['shape']): return '%s has %d axes for %d dimensions' % (where, len(a['axes']), len(a['shape']))
+                for ax, m in zip(a['axes'], a['shape']):
+                    if len(ax['labels']) != m: return '%s: axis %r has %d labels for a dimension of size %d' % (where, ax['name'], len(ax['labels']), m)
+                    if not isinstance(ax['name'], str) or ax['name'] == '': return '%s: axis name %r is not a non-empty string' % (where, ax['name'])
+                if len(set(names)) != len(names): return '%s has duplicate dimension names %r' % (where, names)
+        return None
+
+    @staticmethod
+    def nontrivial(c, res): return sum(1 for r in res[1] if r['status'] is None) >= 3
+
 import random
-MODEL_TARGETS = ('Model/Construct.vo', 'Model/Cache.vo')
-SUITES = [Programs, Ctor, AxisCache]
+MODEL_TARGETS = ('Model/Construct.vo', 'Model/Cache.vo', 'Model/Dataset.vo')
+SUITES = [Programs, Ctor, AxisCache, DatasetVars]
 RULE = ('suite 0: random programs (length 1-8 quick, 1-25 thorough) over indexing, assignment, arithmetic, reductions, reshaping, reindexing, '
         'aligning, renaming / relabelling in place, Dataset insertion+extraction, interleaved with cache-filling queries; every DimArray '
         'constructed by the library while the program runs is tested for well-formedness (monitor on DimArray.__init__); the final array '
         'is compared with the model and with a freshly constructed equal array under a probe set of further operations; '
         'suite 1: all documented constructor forms and the malformed inputs; suite 2: histories of queries, label edits, sorts, slices, '
         'reversals, takes and copies on one Axis object, its labels, dtype kind and private _monotonic cache compared with the state machine '
-        'of Model/Cache.v after every step, and the cache invariant tested on the real object')
+        'of Model/Cache.v after every step, and the cache invariant tested on the real object; suite 3: the Dataset histories of C13 with every '
+        'variable tested for well-formedness after every step')
 def generate(rng, n, tier, stats): raise NotImplementedError
